@@ -630,7 +630,7 @@ Theorem find_local l1 c1 c2 xn c3 ps c4 c5 vs b c6 l2 Gi L1 es L2 :
                    local_item Gi xn D (Some xn) (pd_params (the_proc dd)) (pd_vars (the_proc dd)) le bo
     end.
 Proof.
-  intros dd D H Hp Hv x. rewrite find_declaring_eq, (find_in_decl p G Hwt _ _ _ _ H).
+  intros dd D H Hp Hv x. rewrite find_declaring_eq, (find_in_decl p _ _ _ _ H).
   2:{ intros g D' o Hg Ho. destruct (dpred _ _ _ o) eqn:E; [|reflexivity]. exfalso.
       apply dpred_true in E as [_ [_ Hproc]]. destruct (occs_of_decl_facts _ _ _ Ho) as [_ [_ F3]].
       specialize (F3 _ Hproc). apply (names_distinct p G Hwt _ _ _ H g D' Hg). rewrite F3. reflexivity. }
